@@ -172,6 +172,9 @@ pub fn serve(sc: &Scenario, ids: &[String], r: &Req) -> SvcRes {
         }
     }
     let num: usize = f.trim_start_matches(|c: char| c.is_alphabetic()).parse().unwrap_or(0);
+    if f.starts_with("big") {
+        return (0, Value::Array((0..num).map(|i| json!(format!("{f}-{i}"))).collect()).to_string());
+    }
     if f.starts_with("oddfail") {
         return (1 + (num % 7) as i32, crate::script3::odd_value(num));
     }
